@@ -41,6 +41,7 @@ class Frame:
         self.yields: list[V] = []
         self.ctor_index: dict[str, int] = {}
         self.fell_off_end = False
+        self.try_depth = parent.try_depth if parent else 0
         self.depth = (parent.depth + 1) if parent else 0
 
     def ordinal(self, call: ast.Call, cls: str) -> int:
@@ -471,6 +472,13 @@ class Interp:
                 self.emit("S0-bad-operand", f"{fr.sitekey}:{norm_stmt(e)[:70]}", "fail", fr.where,
                           f"`+` applied to {a!r} and {b!r}")
                 return TOP
+            if a == PYCONST and b == PYCONST:
+                # two evaluated literals of unknown kind (str vs bytes) are added
+                self.emit("E4-mixed-literal-add", f"{fr.sitekey}:{norm_stmt(e)[:70]}",
+                          "ok" if (fr.try_depth > 0 or self.kind_guarded(e, fr)) else "fail", fr.where,
+                          "two ast.literal_eval results are added without a same-kind check or an exception handler: "
+                          "a str and a bytes literal side by side raise TypeError")
+                return PYCONST
             if a == PYCONST or b == PYCONST:
                 return PYCONST
             return TOP
@@ -487,6 +495,26 @@ class Interp:
         if isinstance(op, ast.Mod) and self.is_str(a):
             return STR
         return TOP
+
+    @staticmethod
+    def kind_guarded(e, fr) -> bool:
+        """`left + right` is preceded, in the same function, by `if <isinstance(left, bytes) vs isinstance(right, bytes)>: raise`."""
+        if fr.root is None or not isinstance(e, (ast.BinOp, ast.AugAssign)):
+            return False
+        l, r = (e.left, e.right) if isinstance(e, ast.BinOp) else (e.target, e.value)
+        want = {norm_stmt(l), norm_stmt(r)}
+        for n in ast.walk(fr.root):
+            if isinstance(n, ast.If) and n.lineno < e.lineno:
+                tested = {norm_stmt(c.args[0]) for c in ast.walk(n.test) if isinstance(c, ast.Call)
+                          and isinstance(c.func, ast.Name) and c.func.id == "isinstance" and len(c.args) == 2
+                          and norm_stmt(c.args[1]) in ("bytes", "str")}
+                last = n.body[-1]
+                leaves = isinstance(last, ast.Raise) or (
+                    isinstance(last, ast.Expr) and isinstance(last.value, ast.Call) and isinstance(last.value.func, ast.Attribute)
+                    and last.value.func.attr.startswith("raise_"))
+                if want <= tested and leaves:
+                    return True
+        return False
 
     @staticmethod
     def as_list(v: V) -> Optional[ListV]:
@@ -659,6 +687,9 @@ class Interp:
     def drop_paths(env: dict, name: str):
         for k in [k for k in env if k.startswith("$" + name + "[") or k == "@" + name]:
             del env[k]
+        if env.get("?or"):
+            env["?or"] = tuple(c for c in env["?or"] if not any(
+                isinstance(n, ast.Name) and n.id == name for l in c for n in ast.walk(l[2])))
 
     def e_Subscript(self, e, env, fr):
         pk = self.path_key(e)
@@ -837,6 +868,7 @@ class Interp:
 
     def bind_target(self, target, v: V, env: dict, fr) -> bool:
         if isinstance(target, ast.Name):
+            self.drop_paths(env, target.id)
             env[target.id] = v
             return True
         if isinstance(target, (ast.Tuple, ast.List)):
@@ -872,7 +904,41 @@ class Interp:
         return True
 
     # ------------------------------------------------------------------ refinement
+    @staticmethod
+    def canon_literal(test: ast.expr, truth: bool) -> tuple[str, bool, ast.expr]:
+        while isinstance(test, ast.UnaryOp) and isinstance(test.op, ast.Not):
+            test, truth = test.operand, not truth
+        if isinstance(test, ast.Compare) and len(test.ops) == 1 and isinstance(test.ops[0], ast.IsNot):
+            flipped = ast.Compare(test.left, [ast.Is()], test.comparators)
+            return norm_stmt(flipped), not truth, test
+        return norm_stmt(test), truth, test
+
     def refine(self, test: ast.expr, env: dict, truth: bool, fr) -> dict:
+        env = self._refine(test, env, truth, fr)
+        # disjunctive facts: (not A) or (not B) learnt from a false conjunction, resolved when A is later known
+        clauses = env.get("?or")
+        if clauses:
+            src, t, _ = self.canon_literal(test, truth)
+            new = []
+            for clause in clauses:
+                if any(ls == src and lt == t for ls, lt, _n, _w in clause):
+                    continue  # clause satisfied
+                rest = tuple(l for l in clause if not (l[0] == src and l[1] != t))
+                if len(rest) == 1:
+                    _ls, _lt, node, want = rest[0]
+                    env = self._refine(node, env, want, fr)
+                elif rest:
+                    new.append(rest)
+            env["?or"] = tuple(new)
+        if isinstance(test, ast.BoolOp) and isinstance(test.op, ast.And) and not truth and len(test.values) <= 3:
+            lits = []
+            for v in test.values:
+                ls, lt, _ = self.canon_literal(v, False)
+                lits.append((ls, lt, v, False))
+            env["?or"] = tuple(env.get("?or", ())) + (tuple(lits),)
+        return env
+
+    def _refine(self, test: ast.expr, env: dict, truth: bool, fr) -> dict:
         env = dict(env)
         if isinstance(test, ast.NamedExpr) and isinstance(test.target, ast.Name):
             v = env.get(test.target.id)
@@ -884,15 +950,15 @@ class Interp:
             env[test.id] = truthy(env[test.id]) if truth else falsy(env[test.id])
             return env
         if isinstance(test, ast.UnaryOp) and isinstance(test.op, ast.Not):
-            return self.refine(test.operand, env, not truth, fr)
+            return self._refine(test.operand, env, not truth, fr)
         if isinstance(test, ast.BoolOp):
             if isinstance(test.op, ast.And) and truth:
                 for x in test.values:
-                    env = self.refine(x, env, True, fr)
+                    env = self._refine(x, env, True, fr)
                 return env
             if isinstance(test.op, ast.Or) and not truth:
                 for x in test.values:
-                    env = self.refine(x, env, False, fr)
+                    env = self._refine(x, env, False, fr)
                 return env
             return env
         if isinstance(test, ast.Compare) and len(test.ops) == 1 and isinstance(test.left, ast.Name) \
@@ -1415,7 +1481,11 @@ class Interp:
             raise _LoopExit(isinstance(st, ast.Break))
         if isinstance(st, ast.Try):
             snapshot = dict(env)
-            alive = self._block(st.body, env, fr)
+            fr.try_depth += 1
+            try:
+                alive = self._block(st.body, env, fr)
+            finally:
+                fr.try_depth -= 1
             outs = [dict(env)] if alive else []
             for h in st.handlers:
                 e2 = dict(snapshot)
@@ -1516,6 +1586,11 @@ class Interp:
             keys |= set(e)
         out = {}
         for k in keys:
+            if k == "?or" or k.startswith("@"):
+                vs = [e.get(k) for e in envs]
+                if all(v == vs[0] for v in vs) and vs[0] is not None:
+                    out[k] = vs[0]
+                continue
             vals = [e[k] for e in envs if k in e]
             out[k] = mk_union(vals)
         env.clear()
